@@ -180,9 +180,23 @@ func addSpare(t *ref.Type, rv reflect.Value, v *ref.Val) {
 		rv = rv.Elem()
 	}
 	switch t.Kind {
+	case ref.KBinary:
+		if !v.Nil && rv.CanSet() {
+			b := make([]byte, len(v.B), len(v.B)+6)
+			copy(b, v.B)
+			copy(b[len(b):cap(b)], []byte{0xA5, 0xA5, 0xA5, 0xA5, 0xA5, 0xA5})
+			rv.SetBytes(b)
+		}
 	case ref.KStruct:
 		for i, f := range t.St.Fields {
 			addSpare(f.Type, rv.Field(f.GoIdx), v.F[i])
+		}
+		if t.St.Unknown && len(v.Unk) > 0 && rv.CanAddr() {
+			// retained unknown bytes kept as a sub-slice of a larger payload (spare capacity holding other data)
+			b := make([]byte, len(v.Unk), len(v.Unk)+6)
+			copy(b, v.Unk)
+			copy(b[len(b):cap(b)], []byte{0x0B, 0x7f, 0x7f, 0xA5, 0xA5, 0xA5})
+			holder(rv, t.St.UnkIdx).SetBytes(b)
 		}
 	case ref.KList, ref.KSet:
 		if v.Nil {
